@@ -717,6 +717,168 @@ def top_oracle(p):
   return None
 
 
+# ---------------------------------------------------------------------------------------------------------
+# Reference interpreter of the PROPERTY (not of the code): for a history, the set of values every local may
+# have under every valuation, and whether the block is reached.  Semantics:
+#   BlockState({x: v..}, c)   reached iff c;  x has {v} where reached
+#   store_local(x, var)       x has exactly var's values (those whose own condition holds) where reached
+#   with_condition(c)         everything restricted to the valuations where c holds
+#   merge_into(other)         pointwise union; reached iff either is
+# On the unchanged code this coincides with state_vals() of the real object (Props/C18.v: Inv makes explicit
+# binding conditions imply the block condition; with_condition/merge_into exactness).
+
+def ref_eval(p, memo):
+  """-> (vals: {name id: tuple over VALUATIONS of frozenset}, reach: tuple of bool) or None (KeyError)."""
+  k = id(p)
+  if k in memo:
+    return memo[k][1]
+  tag = p[0]
+  nv = len(VALUATIONS)
+  out = None
+  if tag == "init":
+    reach = tuple(ev(p[2], rho) for rho in VALUATIONS)
+    vals = {}
+    for x, v in p[1]:
+      vals[x] = tuple(frozenset([v]) if reach[i] else frozenset() for i in range(nv))
+    out = (vals, reach)
+  elif tag in ("store", "storeload"):
+    a = ref_eval(p[1], memo)
+    if a is not None:
+      if tag == "store":
+        own = tuple(frozenset([p[3]]) for _ in range(nv))
+      else:
+        own = None
+        t = run_prog(p[3])
+        if t is not None:
+          try:
+            var = t.load_local(name_str(p[4]))
+            own = tuple(frozenset(b.value for b in var.bindings if ev(b.condition, rho)) for rho in VALUATIONS)
+          except KeyError:
+            own = None
+      if own is not None:
+        vals = dict(a[0])
+        vals[p[2]] = tuple(own[i] if a[1][i] else frozenset() for i in range(nv))
+        out = (vals, a[1])
+  elif tag == "with":
+    a = ref_eval(p[1], memo)
+    if a is not None:
+      c = tuple(ev(p[2], rho) for rho in VALUATIONS)
+      vals = {x: tuple(vs[i] if c[i] else frozenset() for i in range(nv)) for x, vs in a[0].items()}
+      out = (vals, tuple(a[1][i] and c[i] for i in range(nv)))
+  elif tag == "merge":
+    a, b = ref_eval(p[1], memo), ref_eval(p[2], memo)
+    if a is not None and b is not None:
+      vals = {}
+      for x in set(a[0]) | set(b[0]):
+        va = a[0].get(x, (frozenset(),) * nv)
+        vb = b[0].get(x, (frozenset(),) * nv)
+        vals[x] = tuple(va[i] | vb[i] for i in range(nv))
+      out = (vals, tuple(a[1][i] or b[1][i] for i in range(nv)))
+  else:  # mergenone
+    out = ref_eval(p[1], memo)
+  memo[k] = (p, out)      # keeps p alive so that the id stays unique
+  return out
+
+
+def ref_fail(p, memo=None, real=None):
+  """Compares the real state of history p with the reference semantics.  None if they agree, else
+  (valuation, local or 'block-condition', got, want)."""
+  memo = {} if memo is None else memo
+  want = ref_eval(p, memo)
+  s = run_prog(p) if real is None else real
+  if want is None or s is None:
+    return None if (want is None) == (s is None) else ((), "KeyError", s is None, want is None)
+  vals, reach = want
+  names = set(vals) | {name_id(n) for n in s.get_locals()}
+  for i, rho in enumerate(VALUATIONS):
+    for x in sorted(names):
+      got = state_vals(s, rho, x)
+      w = vals.get(x, (frozenset(),) * len(VALUATIONS))[i]
+      if got != w:
+        return (rho, x, sorted(got), sorted(w))
+    if ev(s._condition, rho) != reach[i]:  # pylint: disable=protected-access
+      return (rho, "block-condition", ev(s._condition, rho), reach[i])  # pylint: disable=protected-access
+  return None
+
+
+def any_fail(p, memo=None):
+  """The property decided on the last operation of p: operand-relative oracle, then reference semantics."""
+  f = top_oracle(p)
+  return f if f is not None else ref_fail(p, memo)
+
+
+def sub_histories(p):
+  """Post-order list of the sub-histories of p (p last)."""
+  out = []
+  tag = p[0]
+  if tag != "init":
+    out.extend(sub_histories(p[1]))
+    if tag == "storeload":
+      out.extend(sub_histories(p[3]))
+    elif tag == "merge":
+      out.extend(sub_histories(p[2]))
+  out.append(p)
+  return out
+
+
+def first_failing_sub(p, memo=None):
+  """The first (smallest) sub-history of p whose last operation violates the property, or None."""
+  for q in sub_histories(p):
+    if q[0] != "init" and any_fail(q, memo) is not None:
+      return q
+  return None
+
+
+def deep_history(r, conds, names=NAMES):
+  """A history of 5 or more operations (mostly 5-9).  Half follow the shape branch/branch -> merge -> with_condition -> store over an
+  existing (explicitly conditioned) name -> merge_into; the rest are random trees of operations."""
+  init = ("init", (), impl().C.TRUE)
+
+  def branch(x):
+    h = init
+    if r.random() < 0.35:
+      h = ("store", h, r.choice(names), r.choice(VALUES), None)
+    if r.random() < 0.75:
+      h = ("with", h, r.choice(conds))
+    h = ("store", h, x, r.choice(VALUES), None)
+    return h
+
+  def rand_tree(ops):
+    if ops <= 0:
+      return init if r.random() < 0.8 else ("init", ((r.choice(names), r.choice(VALUES)),), r.choice(conds))
+    k = r.random()
+    if k < 0.35:
+      return ("store", rand_tree(ops - 1), r.choice(names), r.choice(VALUES), None)
+    if k < 0.62:
+      return ("with", rand_tree(ops - 1), r.choice(conds))
+    if k < 0.92:
+      a = r.randint(0, ops - 1)
+      return ("merge", rand_tree(a), rand_tree(ops - 1 - a))
+    a = r.randint(0, ops - 1)
+    return ("storeload", rand_tree(a), r.choice(names), rand_tree(ops - 1 - a), r.choice(names))
+
+  if r.random() < 0.5:
+    x = r.choice(names)
+    b1, b2 = branch(x), branch(x)
+    m = ("merge", b1, b2)
+    h = m
+    if r.random() < 0.85:
+      h = ("with", h, r.choice(conds))
+    h = ("store", h, x, r.choice(VALUES + (3,)), None)
+    k = r.random()
+    if k < 0.75:
+      other = r.choice([m, b1, init, ("with", m, r.choice(conds)), branch(x)])
+      h = ("merge", h, other) if r.random() < 0.6 else ("merge", other, h)
+    elif k < 0.9:
+      h = ("with", h, r.choice(conds))
+    return h
+  return rand_tree(r.randint(5, 7))
+
+
+OP_NAMES = {"init": "constructor", "store": "store_local", "storeload": "store_local(load_local)",
+            "with": "with_condition", "merge": "merge_into", "mergenone": "merge_into(None)"}
+
+
 def shrink_prog(p, bad, budget_s=20.0):
   """Replace sub-histories by their own sub-histories while the top operation still violates."""
   deadline = time.time() + budget_s
@@ -752,9 +914,7 @@ def shrink_prog(p, bad, budget_s=20.0):
 
 
 def fingerprint(p, fail):
-  tag = p[0]
-  what = "merge_into" if tag == "merge" else "with_condition"
-  return "%s-not-exact:%s" % (what, prog_str(p)[:100])
+  return "%s-not-exact:%s" % (OP_NAMES[p[0]], prog_str(p)[:100])
 
 
 # ---------------------------------------------------------------------------------------------------------
@@ -786,14 +946,40 @@ def witnesses():
   return [w1, w2]
 
 
-def report_history_violation(res, p, n_viol):
+def report_history_violation(res, p, n_viol, memo=None):
+  """p: a history whose last operation (or one of its sub-histories') violates the property on the real code."""
   if n_viol > 3:
     return
-  small = shrink_prog(p, lambda q: top_oracle(q) is not None)
-  f2 = top_oracle(small)
+  q = first_failing_sub(p, memo) or p
+  small = shrink_prog(q, lambda c: any_fail(c) is not None)
+  f2 = any_fail(small)
   res.violation(fingerprint(small, f2),
                 "%s: under valuation %s local/field %s has %s, expected %s" % (prog_str(small), f2[0], f2[1], f2[2], f2[3]),
                 {"kind": "history", "history": prog_json(small)})
+
+
+def extensions(h, conds):
+  """A handful of continuations of history h that make a latent representation defect observable."""
+  m = impl()
+  init = ("init", (), m.C.TRUE)
+  cs = [c for c in conds if canon(c)[0] in ("a", "n")][:4]
+  others = [init, h] + [("store", init, x, v, None) for x in NAMES for v in VALUES]
+  out = []
+  for o in others:
+    out.append(("merge", h, o))
+    out.append(("merge", o, h))
+  for c in cs:
+    w = ("with", h, c)
+    out.append(w)
+    for o in others:
+      out.append(("merge", w, o))
+      out.append(("merge", o, w))
+    for x in NAMES:
+      st = ("store", w, x, VALUES[0], None)
+      out.append(st)
+      out.append(("merge", st, h))
+      out.append(("merge", h, st))
+  return out
 
 
 def run(res):
@@ -805,7 +991,10 @@ def run(res):
               "3 opaque atoms + TRUE/FALSE; states: every history of <=%d public operations (BlockState({}), "
               "store_local of from_value / of a load_local result (same or other state), with_condition(c) for c in "
               "the depth<=1 conditions, merge_into(other), merge_into(None)) over 2 names and 2 values, extended from "
-              "one representative per distinct reachable state, plus random merge_into pairs of <=2-operation states; "
+              "one representative per distinct reachable state, plus random merge_into pairs of <=2-operation states, "
+              "plus a time-boxed sampled stream of histories with 5 or more operations (mostly 5-9) (half shaped branch/branch -> merge -> "
+              "with_condition -> store over an existing name -> merge_into) whose real states are compared under "
+              "all valuations with a reference interpreter of the property; "
               "a case is non-trivial when the result is not a constant / has >=1 local, distinct by canonical "
               "rendering" % max_ops)
   res.assumptions = [
@@ -899,18 +1088,50 @@ def run(res):
   real_states = []
   n_viol = 0
   n_oracle = 0
+  memo = {}
   for p in progs:
     st = run_prog(p)
     rr = None if st is None else render_state(st)
     real_states.append(rr)
     kinds[p[0]] = kinds.get(p[0], 0) + 1
     res.count((p[0], rr) if rr is not None and rr[0] else None)
-    if p[0] in ("merge", "with"):
-      n_oracle += 1
-      if top_oracle(p) is not None:
-        n_viol += 1
-        report_history_violation(res, p, n_viol)
+    n_oracle += 1
+    if (p[0] in ("merge", "with") and top_oracle(p) is not None) or ref_fail(p, memo, st) is not None:
+      n_viol += 1
+      report_history_violation(res, p, n_viol, memo)
   res.extra["history_top_operation"] = kinds
+
+  # ---- leg 3b: sampled deeper histories (5 or more operations), real objects vs the reference semantics ------
+  rd = common.rng(res.seed, "c18-deep")
+  deep_budget = 60.0 if thorough else 10.0
+  deep_max = 60000 if thorough else 4000
+  n_deep = 0
+  deep_ops = {}
+  deep_seen = set()
+  td = time.time()
+  while n_deep < deep_max and time.time() - td < deep_budget:
+    p = deep_history(rd, d1)
+    n_deep += 1
+    k = prog_ops(p)
+    deep_ops[k] = deep_ops.get(k, 0) + 1
+    dm = {}
+    st = run_prog(p)
+    if st is not None:
+      rr = render_state(st)
+      res.count(("deep", rr) if rr[0] and rr not in deep_seen else None)
+      deep_seen.add(rr)
+    else:
+      res.count(None)
+    bad = ref_fail(p, dm, st) is not None or (p[0] in ("merge", "with") and top_oracle(p) is not None)
+    if not bad and rd.random() < 0.15:
+      bad = first_failing_sub(p, dm) is not None     # every intermediate state too, for a sample
+    if bad:
+      n_viol += 1
+      report_history_violation(res, p, n_viol, dm)
+      if n_viol > 20:
+        break
+  res.extra["deep_histories"] = {"n": n_deep, "by_operations": dict(sorted(deep_ops.items())),
+                                 "distinct_states": len(deep_seen), "wall_s": round(time.time() - td, 1)}
   for p in progs:
     if p[0] == "merge" and prog_ops(p) >= 3:
       st = run_prog(p)
@@ -947,7 +1168,8 @@ def run(res):
   res.count(None, n_pairs)
   res.extra["merge_pairs_oracle"] = {"pairs": n_pairs, "states": len(reps_b), "truncated_by_time_budget": truncated}
   res.obligation("oracle:merge_into/with_condition-truth-tables", n_viol == 0,
-                 "%d violating operations among %d history tops + %d state pairs" % (n_viol, n_oracle, n_pairs))
+                 "%d violating operations among %d histories + %d deep histories + %d state pairs" % (
+                     n_viol, n_oracle, n_deep, n_pairs))
   res.extra["wall_real_side_s"] = round(time.time() - t0, 1)
 
   # ---- correspondence ---------------------------------------------------------------------------------
@@ -970,6 +1192,27 @@ def run(res):
   mism = [i for i in range(len(progs)) if model_states[i] != real_states[i]]
   for i in mism[:3]:
     common.log("[C18] state mismatch: %s\n   real =%s\n   model=%s" % (prog_str(progs[i]), real_states[i], model_states[i]))
+  if mism and not any(v["found_input"] for v in res.violations):
+    # the model and the real classes disagree on some history: look for a concrete property violation on the
+    # real code in that history, its sub-histories and a handful of continuations
+    tm = time.time()
+    found = 0
+    for i in mism[:40]:
+      if time.time() - tm > 20 or found >= 2:
+        break
+      h = progs[i]
+      cands = [h] + extensions(h, d1)
+      for c in cands:
+        try:
+          q = first_failing_sub(c)
+        except Untranslatable:
+          q = None
+        if q is not None:
+          found += 1
+          n_viol += 1
+          report_history_violation(res, q, found)
+          break
+    res.extra["mismatch_driven_search"] = {"mismatches": len(mism), "violations_found": found}
   res.obligation("correspondence:BlockState-histories", not mism,
                  "%d of %d histories disagree; first: %s" % (
                      len(mism), len(progs),
@@ -1018,8 +1261,15 @@ def replay(res, path):
   if p[0] in ("merge",):
     print("operand 1  :", run_prog(p[1]))
     print("operand 2  :", run_prog(p[2]))
-  elif p[0] == "with":
+  elif p[0] in ("with", "store", "storeload", "mergenone"):
     print("operand    :", run_prog(p[1]))
   fail = top_oracle(p)
-  print("oracle (valuation, local, got, want):", fail)
-  return 1 if fail is not None else 0
+  print("operand-relative oracle (valuation, local, got, want):", fail)
+  rf = ref_fail(p)
+  print("reference semantics of the history (valuation, local, got, want):", rf)
+  want = ref_eval(p, {})
+  if want is not None and s is not None:
+    for i, rho in enumerate(VALUATIONS):
+      print("  valuation", rho, " real:", {x: sorted(state_vals(s, rho, x)) for x in sorted(want[0])},
+            " expected:", {x: sorted(want[0][x][i]) for x in sorted(want[0])})
+  return 1 if fail is not None or rf is not None else 0
